@@ -116,6 +116,16 @@ def run(tier, seed, pid=PID, flavour='plain', n=None, maxpop=2000):
                     rt = rnd.choice(['FREQ=YEARLY;SCALE=HIJRI.%s%s;COUNT=3', 'FREQ=MONTHLY;SCALE=HIJRI.%s%s;COUNT=5', 'FREQ=YEARLY;SCALE=HIJRI.%s%s;BYMONTH=12;BYMONTHDAY=-1;COUNT=4']) % (typ, epo)
                     c = fam(nf, ds, rt); c['maxpop'] = 70; c['count'] = int(rt.split('COUNT=')[1])
                     cases.append(c); nf += 1
+    # SHIFT in a rule with a calendar scale, UNTIL (with DTSTART's time of day, between two BYMINUTE values) sweeping the days on which
+    # what was shifted past the end of a Hijri month comes to lie: a shifted date is a date of the scale, and bounded as such
+    for sc in rrgen.HIJRI + ['HIJRI.IIC', 'HIJRI.IIIA']:
+      for _ in range(6 if tier == 'thorough' else 2):
+        y = rnd.choice([1990, 2005, 2015, 2019]); mo = rnd.randint(1, 12); d0 = D.date(y, mo, rnd.randint(1, 28))
+        for nn in range(14, 75):
+            u = d0 + D.timedelta(nn)
+            rt = 'FREQ=%s;BYMONTHDAY=1,2,29,30;BYMINUTE=14,54;SHIFT=%s;SCALE=%s;UNTIL=%04d%02d%02dT133059Z' % (rnd.choice(['YEARLY', 'MONTHLY']), rnd.choice(['1', '1', '2', '3', '1B', '2B']), sc, u.year, u.month, u.day)
+            c = fam(nf, (d0.year, d0.month, d0.day, 13, 30, 59), rt); c['until'] = rrgen.inst((u.year, u.month, u.day, 13, 30, 59)); c['maxpop'] = 70
+            cases.append(c); nf += 1
     nsl = vlib.NCPU; per = -(-len(cases) // nsl)
     env_asan = flavour == 'asan'
     if env_asan:
